@@ -272,10 +272,7 @@ func (env *Env) checkFallbackLayer(layer int, apps []*App) string {
 // empty string may mean "no key" or "fall back to the configured key").
 func cacheKeys(s Spec, ctxKey any) []string {
 	if k, ok := ctxKey.(string); ok {
-		if k == "" {
-			return []string{"", s.Key}
-		}
-		return []string{k}
+		return []string{k} // also the empty string: it was supplied, it takes precedence, and it is no key
 	}
 	return []string{s.Key}
 }
